@@ -69,6 +69,10 @@ func envInt(name string, def int) int {
 	return def
 }
 
+// itemBudget: wall-clock seconds one (harness, configuration) item may take before it is abandoned as
+// INCONCLUSIVE (set per tier by cmdCheck).
+var itemBudget = 240
+
 func runItems(ld *loaded, items []item, seed int, payloadCap int) []itemResult {
 	nw := runtime.NumCPU()
 	if nw > 16 {
@@ -106,6 +110,7 @@ func runItems(ld *loaded, items []item, seed int, payloadCap int) []itemResult {
 			}
 			defer e.Close()
 			e.Seed = seed
+			e.Budget = time.Duration(envInt("VERIF_ITEM_BUDGET_S", itemBudget)) * time.Second
 			initErr := ""
 			if err := e.InitState(); err != nil {
 				initErr = err.Error()
@@ -243,6 +248,7 @@ type candidate struct {
 	It     item
 	V      vexec.Violation
 	Native *nativeResult
+	idx    int
 }
 
 func cmdCheck(id, tier string) int {
@@ -257,6 +263,9 @@ func cmdCheck(id, tier string) int {
 		return 2
 	}
 	seed := envInt("VERIF_SEED", 1)
+	if tier == "thorough" {
+		itemBudget = 1800
+	}
 	ld, err := loadRepo()
 	if err != nil {
 		fmt.Printf("INCONCLUSIVE property=%s cannot load /repo with the harness overlay: %v\n", id, err)
@@ -336,7 +345,7 @@ func cmdCheck(id, tier string) int {
 			addInc(fmt.Sprintf("%s: %d solver answers unknown/timeout", r.It, r.Unknown))
 		}
 		for _, v := range r.Res.Violations {
-			cands = append(cands, candidate{It: r.It, V: v})
+			cands = append(cands, candidate{It: r.It, V: v, idx: len(cands)})
 		}
 		for _, s := range r.Res.Samples {
 			samples = append(samples, sampleRef{It: r.It, S: s})
@@ -502,6 +511,20 @@ func cmdCheck(id, tier string) int {
 				confirmed = true
 			}
 		}
+		if !confirmed {
+			// the native run may trip over a different assertion of the same property on the same
+			// input (e.g. real gzip fails earlier than the token model): still a confirmed violation
+			if i := strings.Index(c.V.Msg, ":"); i > 0 {
+				for _, f := range c.Native.Failures {
+					if strings.HasPrefix(f, c.V.Msg[:i+1]) {
+						confirmed = true
+						c.V.Msg = c.V.Msg + " [natively: " + f + "]"
+						cands[i0(chosen, c)] = c
+						break
+					}
+				}
+			}
+		}
 		if strings.HasPrefix(c.V.Msg, "uncaught panic") && c.Native.End == "panic" {
 			confirmed = true
 		}
@@ -613,6 +636,11 @@ func cmdCheck(id, tier string) int {
 	fmt.Printf("%s %s: items=%d paths=%d queries=%d (sat %d, unsat %d, unknown %d) obligations=%d discharged=%d native-validated=%d cross-checked=%d solver=%.1fs wall=%.1fs exit=%d\n",
 		id, tier, len(items), paths, queries, sat, unsat, unknown, obligations, discharged, validated, crossChecked, solve.Seconds(), time.Since(t0).Seconds(), exit)
 	return exit
+}
+
+// i0 finds the index of candidate c among cands (by identity of item and inputs pointer).
+func i0(chosen []int, c candidate) int {
+	return c.idx
 }
 
 func maxInt(a, b int) int {
